@@ -2,6 +2,7 @@ package main
 
 import (
 	"context"
+	"crypto/tls"
 	"encoding/json"
 	"fmt"
 	"net"
@@ -54,6 +55,10 @@ func (w *recWriter) Close() error        { return nil }
 func (w *recWriter) TsigStatus() error   { return nil }
 func (w *recWriter) TsigTimersOnly(bool) {}
 func (w *recWriter) Hijack()             {}
+
+// ConnectionState makes the writer a dns.ConnectionStater (the whoami handler asks
+// a TCP writer for it): not a TLS connection.
+func (w *recWriter) ConnectionState() *tls.ConnectionState { return nil }
 
 type refResult struct {
 	msg      *dns.Msg // nil = nothing written
@@ -136,7 +141,22 @@ func render(m *dns.Msg) string {
 	for _, x := range m.Question {
 		q = append(q, x.Name)
 	}
-	return dnsfix.Canon(m) + "\n question as written: " + strings.Join(q, " ")
+	return dnsfix.Canon(m) + "\n question as written: " + strings.Join(q, " ") +
+		fmt.Sprintf("\n header: opcode=%d rd=%v ra=%v ad=%v cd=%v z=%v", m.Opcode, m.RecursionDesired, m.RecursionAvailable, m.AuthenticatedData, m.CheckingDisabled, m.Zero)
+}
+
+// bareFailure: a failure reply carrying no record (what the accept filter and
+// dns.HandleFailed write).
+func bareFailure(m *dns.Msg) bool {
+	if !m.Response || !failureRcode(m.Rcode) || len(m.Answer) != 0 || len(m.Ns) != 0 {
+		return false
+	}
+	for _, rr := range m.Extra {
+		if rr.Header().Rrtype != dns.TypeOPT {
+			return false
+		}
+	}
+	return true
 }
 
 func isAddr(rr dns.RR) bool {
@@ -309,7 +329,7 @@ func childMain(r *vlib.Run, cfgJSON string) {
 	}
 
 	ts := transports(r.Thorough())
-	qs := querySet()
+	qs := querySet(r.Thorough())
 	for _, l := range ls {
 		e.runListener(l, qs, ts)
 		guardPanics := e.runGuard(l)
@@ -451,26 +471,46 @@ func (e *engine) runListener(l *listener, qs []query, ts []transport) {
 			r.Add("cases", 1)
 			e.mark(fmt.Sprintf("%s/%s", q.id(), t))
 
+			// the statement's ANY clause has no condition on class, options or name case
 			byANY := e.cfg.RefuseANY && q.qtype == dns.TypeANY
 			byWhoami := !byANY && e.cfg.Whoami && strings.ToLower(q.name) == wd
+			// a message with another opcode is not a query: the server may also reject it
+			// (failure reply without records) or ignore it; if it answers, the answer must
+			// still be what the chain calls for (HINFO only / whoami / the bare handler's)
+			notQuery := q.opcode != dns.OpcodeQuery
+			if notQuery {
+				r.Add("cases_with_non_query_opcode", 1)
+			}
+			if q.class() != dns.ClassINET {
+				r.Add("cases_with_non_IN_class", 1)
+			}
 
 			// the reference, before anything is sent: a query the bare handler panics on
 			// would take the server process down
 			ref := e.bare(wire, local, remote, l.spec.MaxAns)
-			if ref.panicked != nil && !byANY && !byWhoami {
+			if ref.panicked != nil && !byANY && !byWhoami && !notQuery {
 				e.violate("bare-panic", q.id(), t.String(), l, fmt.Sprintf("the bare handler panics: %v (not sent to the server)", ref.panicked), nil)
 				continue
 			}
 			expectReply := byANY || byWhoami || ref.msg != nil
+			if notQuery && ref.panicked != nil {
+				// not sent: if the accept filter let it through it would take the server process down
+				r.Add("non_query_cases_not_sent_bare_handler_panics", 1)
+				continue
+			}
 			waits := udpWaits
-			if !expectReply {
+			if !expectReply || notQuery {
 				waits = shortWaits
 			}
 			respWire := e.send(l, t, wire, u, tc, waits)
 			local, remote = transportAddrs(l, t, u, tc) // a re-dialled TCP connection has a new source port
 			r.Add("socket_exchanges", 1)
 			if respWire == nil {
-				if expectReply {
+				if notQuery {
+					r.Add("non_query_cases_ignored_by_server", 1)
+					r.Add("responses_compared", 1)
+					r.Add("evaluations", 1)
+				} else if expectReply {
 					e.silent++
 					e.violate("noreply", q.id(), t.String(), l, "no reply after all attempts; expected:\n"+render(ref.msg), nil)
 				} else {
@@ -498,10 +538,12 @@ func (e *engine) runListener(l *listener, qs []query, ts []transport) {
 
 			// (2) content
 			switch {
+			case notQuery && bareFailure(resp):
+				r.Add("non_query_cases_rejected_with_failure", 1)
 			case byANY:
 				r.Add("cases_answered_by_any_refusal", 1)
 				r.Add("distinct_nontrivial", 1)
-				if p := checkHINFO(q, resp); p != "" {
+				if p := checkHINFO(q, resp, true); p != "" {
 					e.violate("any-refusal", q.id(), t.String(), l, p+"\ngot:\n"+render(resp), nil)
 				}
 			case byWhoami:
@@ -509,7 +551,7 @@ func (e *engine) runListener(l *listener, qs []query, ts []transport) {
 				if q.qtype == dns.TypeTXT {
 					r.Add("distinct_nontrivial", 1)
 				}
-				if p := checkWhoami(q, t, local, remote, resp); p != "" {
+				if p := checkWhoami(q, t, local, remote, resp, true); p != "" {
 					e.violate("whoami", q.id(), t.String(), l, p+"\ngot:\n"+render(resp), nil)
 				}
 			default:
@@ -619,7 +661,7 @@ func firstLine(s string) string {
 
 // checkHINFO: ANY under refusal = exactly one synthesized HINFO at the query
 // name and nothing from the database.
-func checkHINFO(q query, m *dns.Msg) string {
+func checkHINFO(q query, m *dns.Msg, strictQ bool) string {
 	var p []string
 	if m.Rcode != dns.RcodeSuccess {
 		p = append(p, "rcode "+dns.RcodeToString[m.Rcode])
@@ -627,7 +669,7 @@ func checkHINFO(q query, m *dns.Msg) string {
 	if !m.Response {
 		p = append(p, "QR clear")
 	}
-	if len(m.Question) != 1 || !strings.EqualFold(m.Question[0].Name, q.name) || m.Question[0].Qtype != q.qtype {
+	if strictQ && (len(m.Question) != 1 || !strings.EqualFold(m.Question[0].Name, q.name) || m.Question[0].Qtype != q.qtype || m.Question[0].Qclass != q.class()) {
 		p = append(p, "question not echoed")
 	}
 	if len(m.Answer) != 1 {
@@ -657,7 +699,7 @@ func checkHINFO(q query, m *dns.Msg) string {
 // checkWhoami: the whoami name is answered by the whoami handler: NOERROR, for
 // TXT the transport, source and destination of the exchange, for other types
 // nothing; never database content.
-func checkWhoami(q query, t transport, local, remote net.Addr, m *dns.Msg) string {
+func checkWhoami(q query, t transport, local, remote net.Addr, m *dns.Msg, strictQ bool) string {
 	var p []string
 	if m.Rcode != dns.RcodeSuccess {
 		p = append(p, "rcode "+dns.RcodeToString[m.Rcode])
@@ -665,7 +707,7 @@ func checkWhoami(q query, t transport, local, remote net.Addr, m *dns.Msg) strin
 	if !m.Response {
 		p = append(p, "QR clear")
 	}
-	if len(m.Question) != 1 || !strings.EqualFold(m.Question[0].Name, q.name) || m.Question[0].Qtype != q.qtype {
+	if strictQ && (len(m.Question) != 1 || !strings.EqualFold(m.Question[0].Name, q.name) || m.Question[0].Qtype != q.qtype || m.Question[0].Qclass != q.class()) {
 		p = append(p, "question not echoed")
 	}
 	var texts []string
@@ -738,8 +780,8 @@ func (e *engine) runMalformed(l *listener, guardPanics bool) {
 	r := e.r
 	probe := query{name: "www.example.com.", qtype: dns.TypeA}
 	for _, t := range []transport{{size: 1232}, {tcp: true}} {
-		for _, rm := range rawMessages() {
-			if guardPanics && rm.name != "two-questions" {
+		for _, rm := range rawMessages(r.Thorough()) {
+			if guardPanics && rm.qs == nil {
 				// already reported by the in-process call; over the socket it would kill the server process
 				r.Add("malformed_messages_not_sent_chain_panics", 1)
 				continue
@@ -770,17 +812,16 @@ func (e *engine) runMalformed(l *listener, guardPanics bool) {
 				if err := m.Unpack(resp); err != nil {
 					e.violate("malformed-garbled", qid, t.String(), l, fmt.Sprintf("reply does not unpack: %v", err), nil)
 				} else if e.rawSamples = append(e.rawSamples, map[string]string{"config": e.cfg.Name, "listener": l.spec.IP, "query": qid, "transport": t.String(), "reply": firstLine(render(m))}); !m.Response || !failureRcode(m.Rcode) {
-					ok := false
-					if rm.name == "two-questions" && (!t.tcp || tc.connect() == nil) {
-						// answering the first question exactly as the bare handler does is also acceptable
+					why := "a message without a question"
+					if rm.qs != nil && (!t.tcp || tc.connect() == nil) {
+						// answering the first question exactly as the chain should (HINFO only under
+						// ANY refusal, whoami, else the bare handler's answer) is also acceptable
 						local, remote := transportAddrs(l, t, u, tc)
-						if ref := e.bare(wire, local, remote, l.spec.MaxAns); ref.msg != nil && render(ref.msg) == render(m) {
-							ok = true
-						}
+						why = e.byFirstQuestion(rm, wire, t, l, local, remote, m)
 						tc.close()
 					}
-					if !ok {
-						e.violate("malformed", qid, t.String(), l, "neither a failure reply nor silence:\n"+render(m), nil)
+					if why != "" {
+						e.violate("malformed", qid, t.String(), l, "neither a failure reply nor silence, and "+why+":\n"+render(m), nil)
 					}
 				}
 			}
@@ -812,6 +853,27 @@ func (e *engine) runMalformed(l *listener, guardPanics bool) {
 			tc.close()
 		}
 	}
+}
+
+// byFirstQuestion judges a non-failure reply to a message that is not a plain
+// one-question query (several questions, QR set): "" when it is what the first
+// question alone calls for on this listener, else what is wrong with it.
+func (e *engine) byFirstQuestion(rm rawMsg, wire []byte, t transport, l *listener, local, remote net.Addr, m *dns.Msg) string {
+	first := query{name: rm.qs[0].Name, qtype: rm.qs[0].Qtype}
+	switch {
+	case e.cfg.RefuseANY && first.qtype == dns.TypeANY:
+		return checkHINFO(first, m, false)
+	case e.cfg.Whoami && strings.EqualFold(first.name, whoamiDomain+"."):
+		return checkWhoami(first, t, local, remote, m, false)
+	}
+	ref := e.bare(wire, local, remote, l.spec.MaxAns)
+	if ref.msg == nil {
+		return "the bare handler writes nothing for it"
+	}
+	if a, b := render(m), render(ref.msg); a != b {
+		return "it is not the bare handler's answer to the first question:\n" + b
+	}
+	return ""
 }
 
 // runGuard calls the handler chain installed on each listener in-process with
@@ -859,6 +921,52 @@ func (e *engine) runGuard(l *listener) (panics bool) {
 				}
 			}
 		}
+		// messages with several questions (what reaches the chain when the accept filter
+		// lets them through): no panic; a failure, or the answer to the first question
+		for _, raw := range rawMessages(false) {
+			if raw.qs == nil {
+				continue
+			}
+			wire := raw.wire(e.id())
+			m := new(dns.Msg)
+			if err := m.Unpack(wire); err != nil {
+				vlib.Infra("harness message %s does not unpack: %v", raw.name, err)
+			}
+			t := transport{tcp: n == "tcp", size: 0}
+			var local, remote net.Addr = l.udp, &net.UDPAddr{IP: net.ParseIP(l.spec.IP), Port: 40000}
+			if t.tcp {
+				local, remote = l.tcp, &net.TCPAddr{IP: net.ParseIP(l.spec.IP), Port: 40000}
+			}
+			w := &recWriter{local: local, remote: remote}
+			qid := "inprocess:" + raw.name
+			e.mark(qid + "/" + n)
+			r.Add("evaluations", 1)
+			r.Add("cases", 1)
+			r.Add("inprocess_guard_calls", 1)
+			var pan interface{}
+			func() {
+				defer func() { pan = recover() }()
+				h.ServeDNS(w, m)
+			}()
+			if pan != nil {
+				e.violate("guard-panic", qid, n, l, fmt.Sprintf("the listener's handler chain panics on a message with %d questions: %v", len(raw.qs), pan), nil)
+				continue
+			}
+			if len(w.wires) == 0 {
+				continue
+			}
+			got := new(dns.Msg)
+			if err := got.Unpack(w.wires[0]); err != nil {
+				e.violate("guard-reply", qid, n, l, fmt.Sprintf("reply does not unpack: %v", err), nil)
+				continue
+			}
+			if bareFailure(got) {
+				continue
+			}
+			if why := e.byFirstQuestion(raw, wire, t, l, local, remote, got); why != "" {
+				e.violate("guard-reply", qid, n, l, fmt.Sprintf("reply to a message with %d questions is neither a failure nor the answer to the first question: %s\n%s", len(raw.qs), why, render(got)), nil)
+			}
+		}
 	}
 	return panics
 }
@@ -876,7 +984,7 @@ func dumpBare(dir string) {
 			fmt.Println("open", be, err)
 			continue
 		}
-		for _, q := range querySet() {
+		for _, q := range querySet(false) {
 			for _, tcp := range []bool{false, true} {
 				t := transport{tcp: tcp, size: 1232}
 				wire, _ := q.build(t, 1)
